@@ -70,6 +70,17 @@ Definition M3 (s : state) : Prop := show_marked s = true -> forall id, In id (ra
 (* guarded: every cached sort key is the current key of the flow *)
 Definition Fresh (s : state) : Prop := forall id o k, cache_of s id o = Some k -> k = generate o (attr s id).
 
+Lemma shows_wanted s id : shows s (attr s id) = wanted s id.
+Proof. unfold shows, wanted. destruct (show_marked s), (fmarked (attr s id)); reflexivity. Qed.
+Lemma shows_true s f : shows s f = true <->
+  fmatches (filt s) f = true /\ (show_marked s = true -> fmarked f = true).
+Proof.
+  unfold shows. destruct (fmatches (filt s) f), (show_marked s), (fmarked f); simpl; split; intros H;
+    try reflexivity; try discriminate; try (split; [reflexivity | intros; reflexivity]);
+    try (destruct H as [H1 H2]; try discriminate; specialize (H2 eq_refl); discriminate).
+  split; [reflexivity | intros; discriminate].
+Qed.
+
 Lemma CoreV_updm s s' : updm s s' -> view s' = view s -> CoreV s -> CoreV s'.
 Proof.
   intros [[C _ _] Mo] V [H1 H2 H3 H4]. constructor.
